@@ -883,8 +883,9 @@ func worlds(args []string) {
 	trace := fs.String("trace", "worlds.ndjson", "")
 	resF := fs.String("res", "worlds-result.json", "")
 	descF := fs.String("worlds", "worlds.json", "")
+	batch := fs.Int64("batch", 0, "batch number (varies the random stream; one trace file per batch)")
 	fs.Parse(args)
-	r := rand.New(rand.NewSource(vh.Seed()*104729 + 71))
+	r := rand.New(rand.NewSource(vh.Seed()*104729 + 71 + *batch*15485863))
 	tw, err := vh.NewTraceWriter(*trace)
 	vh.Must(err)
 	res := vh.NewResult()
